@@ -136,15 +136,16 @@ Section Lattice.
               end
             end
         | TPattern rxs =>
-            match b with
-            | TPattern rxs' =>
-                Nat.eqb (length rxs) 0 || (negb (Nat.eqb (length rxs') 0) && forallb (fun p => mem_str p rxs) rxs')
-            | TString => Nat.eqb (length rxs) 0
-            | TStringVal s => Nat.eqb (length rxs) 0 || matches_any rxs s
-            | TEnum ci vs =>
-                Nat.eqb (length rxs) 0 ||
-                (negb ci && negb (Nat.eqb (length vs) 0) && forallb (matches_any rxs) vs)
-            | _ => false
+            match rxs with
+            | [] =>      (* patterntype.go:97: no patterns = whatever String accepts *)
+                match b with TString | TStringSz _ _ | TStringVal _ | TEnum _ _ | TPattern _ => true | _ => false end
+            | _ =>
+                match b with
+                | TPattern rxs' => negb (Nat.eqb (length rxs') 0) && forallb (fun p => mem_str p rxs) rxs'
+                | TStringVal s => matches_any rxs s
+                | TEnum ci vs => negb ci && negb (Nat.eqb (length vs) 0) && forallb (matches_any rxs) vs
+                | _ => false
+                end
             end
         | TRegexp p => match b with TRegexp p' => str_eqb p [] || str_eqb p p' | _ => false end
         | TBinary => match b with TBinary => true | _ => false end
@@ -156,18 +157,19 @@ Section Lattice.
             end
         | TArray e lo hi =>
             match b with
-            | TArray e' lo' hi' => size_sub lo hi lo' hi' && asg e e'
+            | TArray e' lo' hi' => size_sub lo hi lo' hi' && ((hi' =? 0) || asg e e')
             | TTuple ts _ lo' hi' =>
                 size_sub lo hi lo' hi' &&
-                match ts with
-                | [] => (hi' <=? 0) || asg e TAny
-                | _ => forallb (asg e) ts
-                end
+                ((hi' =? 0) ||
+                 match ts with
+                 | [] => asg e TAny
+                 | _ => forallb (asg e) ts
+                 end)
             | _ => false
             end
         | THash k v lo hi =>
             match b with
-            | THash k' v' lo' hi' => size_sub lo hi lo' hi' && asg k k' && asg v v'
+            | THash k' v' lo' hi' => size_sub lo hi lo' hi' && ((hi' =? 0) || (asg k k' && asg v v'))
             | TStruct ms =>
                 size_sub lo hi (struct_required ms) (zlen ms) &&
                 forallb (fun m => asg k (actual_key (fst (snd m))) && asg v (snd (snd m))) ms
@@ -175,14 +177,15 @@ Section Lattice.
             end
         | TTuple ts _ lo hi =>
             match b with
-            | TArray e' lo' hi' => size_sub lo hi lo' hi' && forallb (fun t => asg t e') ts
+            | TArray e' lo' hi' => size_sub lo hi lo' hi' && ((hi' =? 0) || forallb (fun t => asg t e') ts)
             | TTuple os _ lo' hi' =>
                 size_sub lo hi lo' hi' &&
                 match ts with
                 | [] => true
                 | _ =>
+                  (hi' =? 0) ||
                   match os with
-                  | [] => hi' <=? 0
+                  | [] => forallb (fun t => asg t TAny) ts
                   | _ =>
                     (fix pairs (ts : list ty) (os : list ty) {struct ts} : bool :=
                        match ts, os with
@@ -221,7 +224,7 @@ Section Lattice.
         end in
       match b with                                                  (* types.go:115 *)
       | TUnit => true
-      | TNotUndef nt => if nullable nt then recv else asg_a nt
+      | TNotUndef nt => if asg_a nt then true else if nullable nt then recv else false   (* types.go:120 *)
       | TOptional ot => if nullable a then asg_a ot else false
       | TVariant ts => forallb asg_a ts
       | _ => recv
